@@ -840,11 +840,161 @@ pub fn gen_doc_from_seeds(rng: &mut Rng, target_len: usize, mix: &TextMix, huge_
     bytes
 }
 
+// ---------------------------------------------------------------- micro documents
+
+/// Small-scope documents: one to four *atoms* - minimal constructs, each with
+/// the least content that still exercises it (nothing, one blank, one
+/// character, one wide character, an image with a blank alt text ...) - and
+/// nothing else.  Many defects need a document in which *only* such a
+/// construct is present (a table that renders borders and no text, a document
+/// whose only element is an empty anchor with an id); the general grammar
+/// produces these conjunctions too rarely.
+pub fn gen_micro_doc(rng: &mut Rng) -> Vec<u8> {
+    fn leaf(rng: &mut Rng, out: &mut String) {
+        const LEAVES: &[&str] = &[
+            "", "", " ", "a", "ab", "a b", "\u{5bbd}", "a\u{5bbd}", "\u{a0}", "&nbsp;", "\u{200b}", "\t", "\n", "\r\n", "\u{301}", "\u{1f44d}\u{1f3fd}",
+            "x\u{263a}\u{fe0f}", "<br>", "<br><br>", "<hr>", "<wbr>", "<img src=\"spacer.gif\" alt=\" \">", "<img alt=\"\">", "<img src=s>",
+            "<img alt=\"\u{5bbd}\">", "<img alt=a title=t>", "<a id=\"e\"></a>", "<a name=n></a>", "<a href=\"u\"></a>", "<a href=u>l</a>",
+            "<a href=\"\">x</a>", "<span id=s></span>", "<i></i>", "<b> </b>", "<s>x</s>", "<sup></sup>", "<sup>2</sup>", "<code>c</code>",
+            "<em id=m>e</em>", "<!-- c -->", "&amp;", "&#0;", "&#x110000;", "<input>", "<svg></svg>", "<template>t</template>", "<script>s</script>",
+            "<style>p{color:red;}</style>", "<font color=red>f</font>", "aaaaaaaaaaaaaaaaaaaaaaaaaaaaaaaaaaaaaaaa", "one two three four five six seven",
+        ];
+        out.push_str(rng.pick(LEAVES));
+    }
+    fn attrs(rng: &mut Rng, out: &mut String) {
+        if rng.chance(1, 5) {
+            out.push_str(rng.pick(&[" id=i", " id=\"\"", " class=c0", " style=\"display:none\"", " style=\"white-space:pre\"", " hidden", " dir=rtl", " align=center", " width=0"]));
+        }
+    }
+    fn atom(rng: &mut Rng, out: &mut String, depth: u32) {
+        let inner = |rng: &mut Rng, out: &mut String| {
+            if depth < 3 && rng.chance(1, 3) {
+                atom(rng, out, depth + 1);
+                if rng.chance(1, 3) {
+                    atom(rng, out, depth + 1);
+                }
+            } else {
+                leaf(rng, out);
+                if rng.chance(1, 4) {
+                    leaf(rng, out);
+                }
+            }
+        };
+        let close = !rng.chance(1, 6);
+        match rng.below(22) {
+            0..=4 => {
+                // table: 1-3 rows of 1-3 cells with minimal content
+                out.push_str("<table");
+                attrs(rng, out);
+                out.push('>');
+                if rng.chance(1, 8) {
+                    out.push_str("<caption>");
+                    inner(rng, out);
+                    out.push_str("</caption>");
+                }
+                let rows = rng.urange(1, 3);
+                let cols = rng.urange(1, 3);
+                for _ in 0..rows {
+                    out.push_str("<tr>");
+                    let c = if rng.chance(1, 5) { rng.urange(0, 4) } else { cols };
+                    for _ in 0..c {
+                        out.push_str(if rng.chance(1, 5) { "<th" } else { "<td" });
+                        if rng.chance(1, 6) {
+                            out.push_str(rng.pick(&[" colspan=2", " colspan=0", " colspan=3", " rowspan=2", " colspan=1000"]));
+                        }
+                        attrs(rng, out);
+                        out.push('>');
+                        inner(rng, out);
+                        if close {
+                            out.push_str("</td>");
+                        }
+                    }
+                    if close {
+                        out.push_str("</tr>");
+                    }
+                }
+                if close {
+                    out.push_str("</table>");
+                }
+            }
+            5 | 6 => {
+                let ordered = rng.chance(1, 2);
+                out.push_str(if ordered { "<ol" } else { "<ul" });
+                if ordered && rng.chance(1, 2) {
+                    out.push_str(rng.pick(&[" start=0", " start=9", " start=99", " start=-1", " start=9223372036854775807", " reversed"]));
+                }
+                attrs(rng, out);
+                out.push('>');
+                for _ in 0..rng.urange(0, 3) {
+                    out.push_str("<li>");
+                    inner(rng, out);
+                    if close {
+                        out.push_str("</li>");
+                    }
+                }
+                if close {
+                    out.push_str(if ordered { "</ol>" } else { "</ul>" });
+                }
+            }
+            7..=12 => {
+                let tag = rng.pick(&["p", "div", "blockquote", "h1", "h3", "h6", "pre", "dl", "dt", "dd", "center", "details", "summary", "figure", "body", "html"]);
+                out.push('<');
+                out.push_str(tag);
+                attrs(rng, out);
+                out.push('>');
+                inner(rng, out);
+                if close {
+                    out.push_str("</");
+                    out.push_str(tag);
+                    out.push('>');
+                }
+            }
+            13 | 14 => {
+                let tag = rng.pick(&["a href=\"http://h/\"", "a href=u id=k", "a name=n", "span id=q", "em", "strong", "s", "del", "ins", "code", "sup", "font color=\"#f00\"", "u"]);
+                out.push('<');
+                out.push_str(tag);
+                out.push('>');
+                inner(rng, out);
+                if close {
+                    out.push_str("</");
+                    out.push_str(tag.split(' ').next().unwrap());
+                    out.push('>');
+                }
+            }
+            _ => leaf(rng, out),
+        }
+    }
+    let mut out = String::new();
+    if rng.chance(1, 12) {
+        out.push_str(rng.pick(&["\u{feff}", "<!DOCTYPE html>", "<html><body id=b>", "<body id=\"page\">", "<head><title>t</title></head>"]));
+    }
+    for _ in 0..rng.urange(1, 4) {
+        atom(rng, &mut out, 0);
+    }
+    out.into_bytes()
+}
+
 // ---------------------------------------------------------------- css
 
+/// `#` followed by hex digits, CSS escapes and multi-byte characters in any
+/// mixture: after unescaping, values of 3, 4, 6 or 8 *bytes* whose characters
+/// do not sit on the byte positions a hex-colour parser slices at.
+fn gen_hash_colour(rng: &mut Rng) -> String {
+    const PIECES: &[&str] = &[
+        "0", "1", "9", "a", "c", "F", "f", "g", "-", "_", "\\e9 ", "\\e9", "\\41 ", "\\46", "\\20AC ", "\\20ac", "\\1F600 ", "\\0 ",
+        "\\d800 ", "\\110000 ", "\\\u{e9}", "\\g", "\u{e9}", "\u{20ac}", "\u{5bbd}", "\u{1f600}", "\u{301}", "\u{a0}",
+    ];
+    let mut s = String::from(if rng.chance(1, 12) { "" } else { "#" });
+    for _ in 0..rng.urange(1, 8) {
+        s.push_str(rng.pick(PIECES));
+    }
+    s
+}
+
 pub fn gen_colour(rng: &mut Rng) -> String {
-    let k = rng.below(14);
+    let k = rng.below(16);
     match k {
+        14 | 15 => gen_hash_colour(rng),
         12 => rng
             .pick(&[
                 "12345\u{e9}", "bleu fonc\u{e9}", "a\u{20ac}\u{20ac}", "\u{5bbd}\u{5bbd}\u{5bbd}", "#12345\u{e9}", "\u{ff}\u{ff}\u{ff}\u{ff}\u{ff}\u{ff}", "", "#",
